@@ -39,11 +39,12 @@ ApplyTokens(ts, st) ==
            name == IF e = 0 THEN t ELSE SubSeq(t, 1, e - 1)
            val == IF e = 0 THEN <<>> ELSE SubSeq(t, e + 1, Len(t))
            st1 == IF e = 0 /\ name = <<97>> THEN [st EXCEPT !.flag = 1]
+                  ELSE IF e = 0 /\ name = <<49>> THEN [st EXCEPT !.flag2 = 1]      \* the flag option "1" (fourth in the table)
                   ELSE IF e # 0 /\ name = <<97, 97>> THEN [st EXCEPT !.sv = val]
                   ELSE IF e # 0 /\ name = <<49>> /\ NumberAs(val, MaxUInt) # <<>> THEN [st EXCEPT !.num = NumberAs(val, MaxUInt)]
                   ELSE st IN
        ApplyTokens(Tail(ts), st1)
-CmdRef(q) == ApplyTokens(Split(q, <<>>), [flag |-> 0, sv |-> <<>>, num |-> <<48>>])
+CmdRef(q) == ApplyTokens(Split(q, <<>>), [flag |-> 0, flag2 |-> 0, sv |-> <<>>, num |-> <<48>>])
 RECURSIVE DigitsOfNat(_)
 DigitsOfNat(v) == IF v < 10 THEN <<48 + v>> ELSE DigitsOfNat(v \div 10) \o <<48 + (v % 10)>>
 
@@ -68,7 +69,7 @@ Accepts(ev) ==
               /\ G("C20", "UnquotedCommandLineCompletes", NoQuotes(ev["in"]) => ev.outcome = "completed")
               /\ G("C20", "UnquotedCommandLineMeaning",
                    (ev.table = 0 /\ NoQuotes(ev["in"]) /\ ev.outcome = "completed" /\ ev.num < 1000000000 /\ ShortNumbers(ev["in"])) =>
-                      LET r == CmdRef(ev["in"]) IN ev.flag = r.flag /\ ev.sv = r.sv /\ DigitsOfNat(ev.num) = r.num)))
+                      LET r == CmdRef(ev["in"]) IN ev.flag = r.flag /\ ev.flag2 = r.flag2 /\ ev.sv = r.sv /\ DigitsOfNat(ev.num) = r.num)))
          /\ (ev.parser # "to_number" \/
              (/\ G("C20", "ToNumberIsTotal", ev.outcome = "completed")
               /\ G("C20", "ToNumberValueOrNone", /\ ev.int = NumberAs(ev["in"], MaxInt) /\ ev.uint = NumberAs(ev["in"], MaxUInt)
